@@ -210,8 +210,16 @@ func (g *gen) c03Rule(i int) c03Rule {
 	id := fmt.Sprintf("c%d", i)
 	rl := c03Rule{ID: id}
 	rl.Scheme = []string{"", "", "http", "https"}[rng.IntN(4)]
-	switch rng.IntN(7) {
+	switch rng.IntN(11) {
 	case 0:
+	case 7: // an exclusion counts wherever it stands in the list
+		rl.Methods = []string{"!TRACE", "ALL"}
+	case 8:
+		rl.Methods = []string{"PROPFIND", "!POST", "ALL", "!HEAD"}
+	case 9:
+		rl.Methods = []string{"!DELETE", "GET", "POST", "DELETE"}
+	case 10:
+		rl.Methods = []string{"OPTIONS", "!OPTIONS", "PUT"}
 	case 1:
 		rl.Methods = []string{"GET"}
 	case 2:
@@ -425,7 +433,7 @@ func TestC03(t *testing.T) {
 		"executed by the real executor; a header finalizer echoes rule id and .Request.URL.Captures. Oracle: reference predicate + expected captures = named wildcards only, percent-decoded. " +
 		"Non-trivial: the rule has at least one optional condition (scheme/method/host/path_params).")
 	r.Assume("glob/regex pattern semantics are delegated to the same libraries (gobwas/glob, regexp)",
-		"negations are only generated together with ALL; lower-case %2f and encoded slashes under `off` are C08's subject")
+		"negations are only generated together with at least one positive entry (ALL or a method), at any position of the list; lower-case %2f and encoded slashes under `off` are C08's subject")
 	nRules := r.Pick(1600, 20000)
 	perRule := r.Pick(20, 30)
 	g := &gen{rng: r.Stream("c03")}
